@@ -166,6 +166,27 @@ func (c *Content) WithFileInfoDefaults(umask fs.FileMode, mtime time.Time) *Cont
 	return cc
 }
 
+// UnixMode returns the mode word to store in a package for this entry: the
+// nine permission bits plus setuid, setgid and sticky in their Unix positions
+// (04000, 02000, 01000). A mode configured explicitly is already such a number
+// (mode: 04755) and is returned as it is. A mode taken from a file on disk is
+// an fs.FileMode, whose special and type bits live elsewhere (fs.ModeSetuid is
+// 1<<23, fs.ModeDir 1<<31) and must not be written into an archive header.
+func (c *Content) UnixMode() int64 {
+	fm := c.Mode()
+	mode := int64(fm & 0o7777)
+	if fm&fs.ModeSetuid != 0 {
+		mode |= 0o4000
+	}
+	if fm&fs.ModeSetgid != 0 {
+		mode |= 0o2000
+	}
+	if fm&fs.ModeSticky != 0 {
+		mode |= 0o1000
+	}
+	return mode
+}
+
 // Name to part of the os.FileInfo interface
 func (c *Content) Name() string {
 	return c.Source
